@@ -48,7 +48,10 @@ type Compiler struct {
 	tryDepth uint
 	// Number of operands of unfinished enclosing expressions (of the current function) which are on the stack
 	// while the current code runs. A `break`, `continue` or `return` abandoning them must drop them.
-	pending     uint
+	pending uint
+	// Set while the target of an assignment is compiled: its index / member expression must leave the reference to the
+	// storage location on the stack. Everywhere else, such an expression is replaced by the value it refers to.
+	place       bool
 	currScope   *map[string]string
 	currModule  string
 	lambdaCount uint
